@@ -288,6 +288,75 @@ def check_case(sc):
     return out
 
 
+# ---- foreign compressed character columns ---------------------------------------------------------------
+def foreign_string_messages():
+    """[(name, bytes, expected strings per subset)]: compressed messages as another producer may write them -- a character
+    column whose increments are narrower than the element (all-zero local reference value, NBINC < data width; the sample
+    file pgps_110.bufr is of this kind) and an unused character element sent as all-zero octets with NBINC = 0.  The library
+    hands the short strings out; an extract holds them blank-padded (C03).  Laid out by hand with the reference bit writer."""
+    from refbufr.bits import BitWriter
+    from refbufr import frame as rframe
+    out = []
+    for n, names in ((3, [b'ARD2-LPTR', b'ZIM2-LPTR', b'OBE4-LPTR']), (4, [b'A', b'BB', b'CCC', b'DDDD']),
+                     (9, [b'S%d' % k for k in range(9)])):
+        for edition in (3, 4):
+            w = BitWriter()
+            width = max(len(x) for x in names)
+            # 001015 station name, 20 characters: base all zero, NBINC = width, increments
+            w.raw_bytes(b'\0' * 20)
+            w.uint(width, 6)
+            for x in names:
+                w.raw_bytes(x.ljust(width, b' '))
+            # 001019 long station name, 32 characters: not used, all zero, NBINC = 0
+            w.raw_bytes(b'\0' * 32)
+            w.uint(0, 6)
+            # 001001 block number: 7 bits, minimum 10, 4-bit differences
+            w.uint(10, 7)
+            w.uint(4, 6)
+            for k in range(n):
+                w.uint(k % 15, 4)
+            meta = dict(rframe.default_meta(edition))
+            meta.update({'master_table_version': 33, 'n_subsets': n, 'is_compressed': True})
+            b = rframe.build(meta, [1015, 1019, 1001], w.bitstring())[0]
+            out.append(('%d_subsets_edition%d' % (n, edition), b, [[names[k].ljust(width, b' '), b'', 10 + k % 15] for k in range(n)]))
+    return out
+
+
+def check_foreign_strings(rep):
+    for name, b, rows in foreign_string_messages():
+        n = len(rows)
+        out = Outcome()
+        for dk in ('plain', 'compiled'):
+            o = sut.call(decoder(dk).process, b)
+            if not o.ok:
+                out.fail('foreign character columns: source message does not decode (%s coder): %s@%s' % (dk, o.exc_type, o.frame), error=o.msg)
+                continue
+            src = o.value
+            before = sut.observe(src)
+            if before['values'] != [list(r) for r in rows]:
+                out.fail('foreign character columns: decoded values differ from the ones laid out (%s coder)' % dk, got=before['values'][:2])
+                continue
+            for idx in ([0], [n - 1, 0], list(range(n)), [1, 1, 2]):
+                sel = sorted(set(idx))
+                oe = sut.call(lambda: encoder(dk).process(src.subset(idx)).serialized_bytes)
+                if not oe.ok:
+                    out.fail('foreign character columns: extracting / encoding raised %s@%s (%s coder)' % (oe.exc_type, oe.frame, dk),
+                             error=oe.msg, indices=idx)
+                    continue
+                if sut.observe(src) != before or src.serialized_bytes != b:
+                    out.fail('extracting and encoding a subset modified the source message (%s coder)' % dk, indices=idx,
+                             before=before['values'][sel[0]][:2], after=sut.observe(src)['values'][sel[0]][:2])
+                    before = sut.observe(src)
+                od = sut.call(lambda: sut.observe(decoder(dk).process(oe.value))['values'])
+                exp = [[rows[i][0].ljust(20, b' '), rows[i][1].ljust(32, b' '), rows[i][2]] for i in sel]
+                if not od.ok or od.value != exp:
+                    out.fail('foreign character columns: the extract does not hold the selected subsets (strings blank-padded to the '
+                             'field width) (%s coder)' % dk, indices=idx, got=od.value[:1] if od.ok else od.msg, expected=exp[:1])
+        rep.add_case('foreign_strings:' + name, True, ['foreign_compressed_character_columns'], None)
+        for clause, detail in out.failures:
+            rep.add_failure(clause, detail, {'foreign_strings': name, 'bytes_hex': b.hex()}, stage='foreign character columns')
+
+
 # ---- corpus ---------------------------------------------------------------------------------------
 def check_corpus(item):
     f, j, b = item
@@ -313,6 +382,7 @@ def check_corpus(item):
     if not o.ok:
         return cc, out.fail('corpus message does not decode: %s' % o.exc_type, error=o.msg), None
     src = o.value
+    src_before = sut.observe(src)
     for idx in sels:
         sel = sorted(set(idx))
         vals = []
@@ -333,6 +403,9 @@ def check_corpus(item):
                 return cc, None, 'encoder refuses: local table not bundled'
             out.fail('corpus: encoding the subset raised %s@%s' % (oe.exc_type, oe.frame), error=oe.msg, indices=idx)
             continue
+        if sut.observe(src) != src_before or src.serialized_bytes != b:
+            out.fail('corpus: extracting and encoding a subset modified the source message', indices=idx)
+            src_before = sut.observe(src)
         od = sut.call(decoder().process, oe.value.serialized_bytes)
         if not od.ok:
             out.fail('corpus: encoded subset does not decode: %s' % od.exc_type, error=od.msg, indices=idx)
@@ -471,6 +544,7 @@ def run(tier, seed):
             sels.append(list(range(1, 257)) + [0, 0])
         return [SubCase(case, idx, 'list', bad=[n]) for idx in sels]
     std.run_boundary(rep, tier, check_case, only=['subsets_', 'bitmap_300_bits_compressed'], wrap=_wrap)
+    check_foreign_strings(rep)
     fuzz.run_structured(rep, 'checks.c10', _fuzz_gen, tier)
     return rep.finish()
 
@@ -478,6 +552,13 @@ def run(tier, seed):
 def replay(path):
     with open(path) as f:
         d = json.load(f)
+    if 'foreign_strings' in d['case']:
+        rep = Report(PID, 'quick', 0)
+        check_foreign_strings(rep)
+        for clause, f in rep.failures.items():
+            print('VIOLATION property=%s replay=%s' % (PID, path))
+            print('  clause: %s detail: %s' % (clause, json.dumps(runner.jsonable(f['detail']))[:600]))
+        return 1 if rep.failures else 0
     if 'corpus_file' in d['case']:
         c = d['case']
         cc, out, excl = check_corpus((c['corpus_file'], c['message_index'], bytes.fromhex(c['bytes_hex'])))
